@@ -47,7 +47,7 @@ CONFIG = {
     'quick': {'shards': 16, 'cases': 160, 'timeout': 600, 'floor': 512},
     'thorough': {'shards': 32, 'cases': 3200, 'timeout': 5400, 'floor': 20480},
 }
-REQUIRED = ['e2e_runs_local_surrogates', 'e2e_runs_true_objectives', 'e2e_pdf_points', 'e2e_pdf_points_region_clause_matters', 'e2e_weights_checked',
+REQUIRED = ['post_cutoff_reset_phases', 'e2e_runs_local_surrogates', 'e2e_runs_true_objectives', 'e2e_pdf_points', 'e2e_pdf_points_region_clause_matters', 'e2e_weights_checked',
             'contract_sample', 'contract_contains', 'contract_pdf', 'contract_line_search', 'draws_checked',
             'contains_inside_checked', 'contains_outside_checked', 'pdf_inside_checked', 'pdf_outside_checked',
             'degenerate_limits_widened', 'volume_checked',
@@ -512,6 +512,7 @@ def run_post(ctx, case):
             marg.append(('norm', float(rng.normal()), float(rng.uniform(0.5, 3.0))))
     prior = make_prior(case['prior'], marg)
     eps = float(rng.uniform(0.2, 2.0))
+    cut = [eps]
     geo, objectives = [], []
     with contracts.attached(ctx, *make_specs(ctx)):
         regions = []
@@ -537,12 +538,12 @@ def run_post(ctx, case):
             seen_cut_in_reg_out = False
             for i in range(k):
                 dist = objectives[i].value(theta)
-                if abs(dist - eps) <= 1e-12 * (1 + abs(eps)):
+                if abs(dist - cut[0]) <= 1e-12 * (1 + abs(cut[0])):
                     judged = False
                 cl, _ = locate(regions[i], theta)
                 if case['surrogate'] and cl == 'edge':
                     judged = False
-                inside_cut = dist <= eps
+                inside_cut = dist <= cut[0]
                 if case['surrogate']:
                     if inside_cut and cl == 'out':
                         seen_cut_in_reg_out = True
@@ -565,63 +566,70 @@ def run_post(ctx, case):
             else:
                 pts.append(rng.uniform(-5, 5, size=d))
         pts = np.array(pts)
-        vals = [post._pdf_unnorm_single_point(p.copy()) for p in pts]
-        batched = post.pdf_unnorm_batched(pts.copy())
-        ctx.event('post_pdf_batched')
-        if np.shape(batched) != (len(pts),):
-            raise Violation('post-pdf-batched-shape', 'pdf_unnorm_batched returned shape %s for %d points' % (np.shape(batched), len(pts)))
-        for p, v, vb in zip(pts, vals, batched):
-            n, judged, cut_in_reg_out = count_at(p)
-            if not judged:
-                ctx.event('post_points_not_judged')
-                continue
-            pr = prior_ref(marg, p)
-            exp = pr * n
-            ctx.event('post_pdf_points')
-            if case['surrogate']:
-                ctx.event('post_pdf_points_surrogate')
-                if cut_in_reg_out:
-                    ctx.event('post_pdf_cutoff_in_region_out')
-            if n > 0 and pr > 0:
-                ctx.event('post_pdf_points_positive')
-            for name, got in (('_pdf_unnorm_single_point', v), ('pdf_unnorm_batched', vb)):
-                if not (abs(float(got) - exp) <= 1e-9 * abs(exp)):
-                    raise Violation('post-pdf-unnorm', '%s = %r, prior %r x %d accepted problems = %r (surrogate_used=%s)' % (
-                        name, got, pr, n, exp, case['surrogate']), {'theta': p, 'prior': pr, 'count': n, 'eps_cutoff': eps})
-
-        # ---- sample weights
-        n2 = case['n2']
-        theta, w, dist = post.sample(n2, seed=case['sample_seed'])
-        theta, w = np.asarray(theta), np.asarray(w)
-        if theta.shape != (k, n2, d) or w.shape != (k, n2):
-            raise Violation('post-sample-shape', 'sample(%d) with %d regions in d=%d returned theta %s, weights %s' % (n2, k, d, theta.shape, w.shape))
-        for i in range(k):
-            L = np.asarray(regions[i].limits, dtype=float)
-            vol = float(np.prod(L[:, 1] - L[:, 0]))
-            for j in range(n2):
-                th = theta[i, j]
-                cl, z = locate(regions[i], th)
-                if cl == 'out':
-                    raise Violation('sample-outside', 'posterior draw %d of region %d is outside that region: box coordinates %s, limits %s' % (
-                        j, i, z.tolist(), L.tolist()))
-                dv = objectives[i].value(th)
-                if abs(dv - eps) <= 1e-12 * (1 + abs(eps)):
+        for phase in (0, 1):
+            if phase == 1:
+                # the cut-off of an existing posterior object is changed: every later evaluation - also at points that were
+                # evaluated before - and every later draw's weight must follow the NEW cut-off
+                cut[0] = eps * float(rng.choice([0.35, 0.6, 1.6, 2.5]))
+                post.reset_eps_cutoff(cut[0])
+                ctx.event('post_cutoff_reset_phases')
+            vals = [post._pdf_unnorm_single_point(p.copy()) for p in pts]
+            batched = post.pdf_unnorm_batched(pts.copy())
+            ctx.event('post_pdf_batched')
+            if np.shape(batched) != (len(pts),):
+                raise Violation('post-pdf-batched-shape', 'pdf_unnorm_batched returned shape %s for %d points' % (np.shape(batched), len(pts)))
+            for p, v, vb in zip(pts, vals, batched):
+                n, judged, cut_in_reg_out = count_at(p)
+                if not judged:
                     ctx.event('post_points_not_judged')
                     continue
-                pr = prior_ref(marg, th)
-                exp = (1.0 if dv < eps else 0.0) * pr * vol          # prior / region density, region density = 1/volume
-                got = float(w[i, j])
-                if cl == 'edge' and got == 0.0:
-                    ctx.event('boundary_ambiguous')
-                    continue
-                ctx.event('post_weights_checked')
-                if exp > 0:
-                    ctx.event('post_weights_nonzero')
-                elif pr > 0:
-                    ctx.event('post_weights_zero_by_cutoff')
-                if not (abs(got - exp) <= 1e-9 * abs(exp)):
-                    raise Violation('post-weight', 'weight of draw %d in region %d is %r; indicator %d x prior %r / region density %r = %r' % (
-                        j, i, got, int(dv < eps), pr, 1.0 / vol, exp), {'theta': th, 'distance': dv, 'eps_cutoff': eps})
+                pr = prior_ref(marg, p)
+                exp = pr * n
+                ctx.event('post_pdf_points')
+                if case['surrogate']:
+                    ctx.event('post_pdf_points_surrogate')
+                    if cut_in_reg_out:
+                        ctx.event('post_pdf_cutoff_in_region_out')
+                if n > 0 and pr > 0:
+                    ctx.event('post_pdf_points_positive')
+                for name, got in (('_pdf_unnorm_single_point', v), ('pdf_unnorm_batched', vb)):
+                    if not (abs(float(got) - exp) <= 1e-9 * abs(exp)):
+                        raise Violation('post-pdf-unnorm', '%s = %r, prior %r x %d accepted problems = %r (surrogate_used=%s)' % (
+                            name, got, pr, n, exp, case['surrogate']), {'theta': p, 'prior': pr, 'count': n, 'eps_cutoff': cut[0]})
+
+            # ---- sample weights
+            n2 = case['n2']
+            theta, w, dist = post.sample(n2, seed=case['sample_seed'])
+            theta, w = np.asarray(theta), np.asarray(w)
+            if theta.shape != (k, n2, d) or w.shape != (k, n2):
+                raise Violation('post-sample-shape', 'sample(%d) with %d regions in d=%d returned theta %s, weights %s' % (n2, k, d, theta.shape, w.shape))
+            for i in range(k):
+                L = np.asarray(regions[i].limits, dtype=float)
+                vol = float(np.prod(L[:, 1] - L[:, 0]))
+                for j in range(n2):
+                    th = theta[i, j]
+                    cl, z = locate(regions[i], th)
+                    if cl == 'out':
+                        raise Violation('sample-outside', 'posterior draw %d of region %d is outside that region: box coordinates %s, limits %s' % (
+                            j, i, z.tolist(), L.tolist()))
+                    dv = objectives[i].value(th)
+                    if abs(dv - cut[0]) <= 1e-12 * (1 + abs(cut[0])):
+                        ctx.event('post_points_not_judged')
+                        continue
+                    pr = prior_ref(marg, th)
+                    exp = (1.0 if dv < cut[0] else 0.0) * pr * vol          # prior / region density, region density = 1/volume
+                    got = float(w[i, j])
+                    if cl == 'edge' and got == 0.0:
+                        ctx.event('boundary_ambiguous')
+                        continue
+                    ctx.event('post_weights_checked')
+                    if exp > 0:
+                        ctx.event('post_weights_nonzero')
+                    elif pr > 0:
+                        ctx.event('post_weights_zero_by_cutoff')
+                    if not (abs(got - exp) <= 1e-9 * abs(exp)):
+                        raise Violation('post-weight', 'weight of draw %d in region %d is %r; indicator %d x prior %r / region density %r = %r' % (
+                            j, i, got, int(dv < cut[0]), pr, 1.0 / vol, exp), {'theta': th, 'distance': dv, 'eps_cutoff': cut[0]})
     ctx.distinct('post_class', 'd%d|k%d|%s|%s|s%d' % (d, k, case['rot'], case['prior'], case['surrogate']))
     ctx.nontrivial(d >= 2 and any(not np.allclose(Q, np.eye(d)) for Q, _ in geo))
 
